@@ -201,7 +201,8 @@ def instances(tier):
                 out.append(Instance("C09", "c09:u_warn", dict(kind=kind, keys=[k], phase=ph), cover=["evaluated"]))
         if tier == "thorough":
             for a, b in itertools.combinations(KEYS, 2):
-                out.append(Instance("C09", "c09:u_warn", dict(kind=kind, keys=[a, b], phase="none"), cover=["evaluated"], weight=3))
+                out.append(Instance("C09", "c09:u_warn", dict(kind=kind, keys=[a, b], phase="none"), cover=["evaluated"], weight=3,
+                                    time_limit=3000))
         out.append(Instance("C09", "c09:u_defaults", dict(kind=kind), cover=["evaluated"], weight=3))
     two = S(N("S1", "Source"), N("C", "Converter", "S1", only=()), N("L1", "PLoad", "C", only=()), N("S2", "Source", only=()), N("L2", "ILoad", "S2", only=()))
     out.append(Instance("C09", "c09:s_rollup", dict(shape=two, limited={"C": ["io"], "L2": ["vi"]}), name="S/two-src/io+vi", uf=True,
